@@ -11,3 +11,4 @@ struct peek_qinfo { unsigned short qid; long long ts_us; long long deadline_us; 
 int peek_queries(const struct ares_channeldata *ch, struct peek_qinfo *out, int cap) { (void)ch; (void)out; (void)cap; return -1; }
 size_t peek_num_servers(const struct ares_channeldata *ch) { (void)ch; return 0; }
 int peek_channel_opts(const struct ares_channeldata *ch, long *tries, long *timeout_ms, long *maxtimeout_ms, long *ndots, long *rotate) { (void)ch; (void)tries; (void)timeout_ms; (void)maxtimeout_ms; (void)ndots; (void)rotate; return 0; }
+size_t peek_full(const struct ares_channeldata *ch, char *out, size_t cap) { (void)ch; (void)cap; if (out) out[0] = 0; return 0; }
